@@ -451,6 +451,31 @@ fn search_secret() -> (usize, Option<Value>) {
             Ok(ok) => if ok != (m >= 4) { return (n, Some(json!({"fn": "KSecretKey::<M>::from_str", "M": m, "input": "", "real": ok, "spec": m >= 4}))); }
         }
     }
+    // key derivation against an independent HMAC chain, including years below 1000 (the date text is always eight digits)
+    for (y, m, d) in [(2015i32, 8u32, 30u32), (999, 12, 31), (476, 2, 29), (1, 1, 1), (9999, 12, 31), (2000, 2, 29)] {
+        for (region, service) in [("us-east-1", "service"), ("", "s3"), ("eu-west-1", "")] {
+            n += 1;
+            let date = chrono::NaiveDate::from_ymd_opt(y, m, d).unwrap();
+            let text = format!("{:04}{:02}{:02}", y, m, d);
+            let k = KSecretKey::<44>::from_str(SECRET).unwrap();
+            let kd = hmac(format!("AWS4{}", SECRET).as_bytes(), text.as_bytes());
+            let kr = hmac(&kd, region.as_bytes());
+            let ks = hmac(&kr, service.as_bytes());
+            let kg = hmac(&ks, b"aws4_request");
+            let real_d = k.to_kdate(date);
+            let real_r = real_d.to_kregion(region);
+            let real_s = real_r.to_kservice(service);
+            let real_g = real_s.to_ksigning();
+            let shortcut = k.to_ksigning(date, region, service);
+            let bad = if real_d.as_ref() != kd.as_slice() { Some("to_kdate") } else if real_r.as_ref() != kr.as_slice() { Some("to_kregion") }
+                else if real_s.as_ref() != ks.as_slice() { Some("to_kservice") } else if real_g.as_ref() != kg.as_slice() { Some("to_ksigning") }
+                else if shortcut.as_ref() != kg.as_slice() || k.to_kregion(date, region).as_ref() != kr.as_slice() || k.to_kservice(date, region, service).as_ref() != ks.as_slice() { Some("shortcut from the secret key") }
+                else if real_d.to_ksigning(region, service).as_ref() != kg.as_slice() || real_d.to_kservice(region, service).as_ref() != ks.as_slice() || real_r.to_ksigning(service).as_ref() != kg.as_slice() { Some("shortcut from a derived key") } else { None };
+            if let Some(which) = bad {
+                return (n, Some(json!({"fn": which, "date": text, "region": region, "service": service, "real": "differs from HMAC chain AWS4+secret -> date(YYYYMMDD) -> region -> service -> aws4_request"})));
+            }
+        }
+    }
     (n, None)
 }
 /// end-to-end with the independent reference signer. `what`: "accept" (C02: reference-signed requests are accepted), "forge" (C01: a request
@@ -499,6 +524,18 @@ fn search_roundtrip(what: &str) -> (usize, Option<Value>) {
                                 let res = validate(&r3, now, "us-east-1", "service", SignatureOptions::default());
                                 if res.is_ok() {
                                     return (n, Some(json!({"fn": "sigv4_validate_request", "case": "accepted although the credential scope date is not the request's UTC date as text", "credential_date": bad_date})));
+                                }
+                            }
+                            // credential arity: anything but exactly five parts is an IncompleteSignature (400), through the real entry point
+                            for scope in ["20150830/us-east-1/service/aws4_request/extra", "20150830/us-east-1/service/aws4_request/", "20150830/us-east-1/service", "20150830/us-east-1/service/aws4_request/a/b/c"] {
+                                n += 1;
+                                let sts = format!("AWS4-HMAC-SHA256\n{}\n{}\n{}", ts, scope, sha_hex(&creq));
+                                let sig = hex::encode(hmac(&signing_key("20150830", "us-east-1", "service"), sts.as_bytes()));
+                                let mut r3 = Req { method: r2.method, path: r2.path.clone(), query: r2.query.clone(), headers: r2.headers.clone(), body: vec![] };
+                                r3.headers.push(("Authorization".into(), format!("AWS4-HMAC-SHA256 Credential={}/{}, SignedHeaders=host;x-amz-date, Signature={}", AKID, scope, sig)));
+                                let res = validate(&r3, now, "us-east-1", "service", SignatureOptions::default());
+                                if !matches!(&res, Err(e) if e.starts_with("IncompleteSignature:")) {
+                                    return (n, Some(json!({"fn": "sigv4_validate_request", "case": "credential without exactly five parts must be IncompleteSignature", "credential_scope": scope, "real": format!("{:?}", res)})));
                                 }
                             }
                         }
@@ -576,6 +613,163 @@ fn form_fold_case() -> (usize, Option<Value>) {
 }
 
 
+// ------------------------------------------------------------------------------------------------------------------
+// C16: executable mirrors of spec/time.rs (the transcribed language of ISO_8601_REGEX and the proleptic Gregorian calendar)
+#[derive(Debug, PartialEq, Clone)]
+struct IsoGroupsM { year: Vec<u8>, month: Vec<u8>, day: Vec<u8>, hour: Vec<u8>, minute: Vec<u8>, second: Vec<u8>, frac: Option<Vec<u8>>, offset: Vec<u8> }
+fn is_digit(b: u8) -> bool { b.is_ascii_digit() }
+fn digits_at(s: &[u8], p: usize, n: usize) -> bool { p + n <= s.len() && s[p..p + n].iter().all(|b| is_digit(*b)) }
+fn opt_sep(s: &[u8], p: usize, c: u8) -> usize { if p < s.len() && s[p] == c { p + 1 } else { p } }
+fn two_in(s: &[u8], p: usize, lo: u32, hi: u32) -> bool { digits_at(s, p, 2) && { let v = (s[p] - b'0') as u32 * 10 + (s[p + 1] - b'0') as u32; lo <= v && v <= hi } }
+fn offset_lang(o: &[u8]) -> bool {
+    o == b"Z"
+        || (o.len() == 5 && (o[0] == b'+' || o[0] == b'-') && (o[1] == b'0' || o[1] == b'1') && is_digit(o[2]) && (b'0'..=b'5').contains(&o[3]) && is_digit(o[4]))
+        || (o.len() == 6 && (o[0] == b'+' || o[0] == b'-') && (o[1] == b'0' || o[1] == b'1') && is_digit(o[2]) && o[3] == b':' && (b'0'..=b'5').contains(&o[4]) && is_digit(o[5]))
+}
+fn iso_groups_m(s: &[u8]) -> Option<IsoGroupsM> {
+    let p1 = opt_sep(s, 4, b'-');
+    let p2 = opt_sep(s, p1 + 2, b'-');
+    let p3 = p2 + 2;
+    let p4 = p3 + 1;
+    let p5 = opt_sep(s, p4 + 2, b':');
+    let p6 = opt_sep(s, p5 + 2, b':');
+    let p7 = p6 + 2;
+    let has_frac = p7 + 1 < s.len() && (s[p7] == b'.' || s[p7] == b',') && is_digit(s[p7 + 1]);
+    let mut p8 = p7;
+    if has_frac { p8 = p7 + 1; while p8 < s.len() && is_digit(s[p8]) { p8 += 1; } }
+    if digits_at(s, 0, 4) && two_in(s, p1, 1, 12) && two_in(s, p2, 1, 31) && p3 < s.len() && s[p3] == b'T' && two_in(s, p4, 0, 23) && two_in(s, p5, 0, 59)
+        && two_in(s, p6, 0, 61) && p8 <= s.len() && offset_lang(&s[p8..])
+    {
+        Some(IsoGroupsM { year: s[0..4].to_vec(), month: s[p1..p1 + 2].to_vec(), day: s[p2..p2 + 2].to_vec(), hour: s[p4..p4 + 2].to_vec(), minute: s[p5..p5 + 2].to_vec(),
+            second: s[p6..p6 + 2].to_vec(), frac: if has_frac { Some(s[p7 + 1..p8].to_vec()) } else { None }, offset: s[p8..].to_vec() })
+    } else { None }
+}
+fn is_leap(y: i64) -> bool { y % 4 == 0 && (y % 100 != 0 || y % 400 == 0) }
+fn days_in_month(y: i64, m: i64) -> i64 { if m == 2 { if is_leap(y) { 29 } else { 28 } } else if m == 4 || m == 6 || m == 9 || m == 11 { 30 } else { 31 } }
+fn ymd_valid(y: i64, m: i64, d: i64) -> bool { (1..=12).contains(&m) && 1 <= d && d <= days_in_month(y, m) }
+fn ymd_days(y: i64, m: i64, d: i64) -> i64 {
+    let yy = if m <= 2 { y - 1 } else { y };
+    let era = yy.div_euclid(400);
+    let yoe = yy - era * 400;
+    let mp = if m > 2 { m - 3 } else { m + 9 };
+    let doy = (153 * mp + 2) / 5 + d - 1;
+    let doe = yoe * 365 + yoe / 4 - yoe / 100 + doy;
+    era * 146097 + doe - 719468
+}
+/// every (y, m, d) the pattern admits: chrono's from_ymd_opt and day count against the spec's calendar. COMPLETE over that domain.
+fn calendar_exhaustive() -> (usize, Option<Value>) {
+    let mut n = 0;
+    let epoch = chrono::NaiveDate::from_ymd_opt(1970, 1, 1).unwrap();
+    for y in 0..=9999i64 {
+        for m in 1..=12i64 {
+            for d in 1..=31i64 {
+                n += 1;
+                let real = chrono::NaiveDate::from_ymd_opt(y as i32, m as u32, d as u32);
+                if real.is_some() != ymd_valid(y, m, d) {
+                    return (n, Some(json!({"fn": "chrono::NaiveDate::from_ymd_opt", "y": y, "m": m, "d": d, "real_is_some": real.is_some(), "spec_ymd_valid": ymd_valid(y, m, d)})));
+                }
+                if let Some(dt) = real {
+                    let days = dt.signed_duration_since(epoch).num_days();
+                    if days != ymd_days(y, m, d) {
+                        return (n, Some(json!({"fn": "chrono day arithmetic", "y": y, "m": m, "d": d, "real_days_since_1970": days, "spec_ymd_days": ymd_days(y, m, d)})));
+                    }
+                }
+            }
+        }
+    }
+    (n, None)
+}
+fn iso_pattern_from_repo() -> Option<String> {
+    let repo = std::env::var("VERIF_REPO").unwrap_or_else(|_| "/repo".to_string());
+    let src = std::fs::read_to_string(format!("{}/src/chronoutil.rs", repo)).ok()?;
+    let i = src.find("Regex::new(")?;
+    let j = src[i..].find("r\"")? + i + 2;
+    let k = src[j..].find("\")")? + j;
+    Some(src[j..k].to_string())
+}
+/// the regex crate on the repository's exact pattern text against the transcription iso_groups, on a structured corpus. BOUNDED.
+fn regex_transcription_crosscheck(budget: usize) -> (usize, Option<Value>) {
+    let pat = match iso_pattern_from_repo() { Some(p) => p, None => return (0, Some(json!({"fn": "ISO_8601_REGEX", "error": "pattern literal not found in src/chronoutil.rs"}))) };
+    let re = match regex::Regex::new(&pat) { Ok(r) => r, Err(e) => return (0, Some(json!({"fn": "ISO_8601_REGEX", "error": format!("{}", e)}))) };
+    let mut n = 0usize;
+    let check = |s: &str| -> Option<Value> {
+        let real = re.captures(s).map(|c| IsoGroupsM {
+            year: c.name("year").unwrap().as_str().as_bytes().to_vec(), month: c.name("month").unwrap().as_str().as_bytes().to_vec(), day: c.name("day").unwrap().as_str().as_bytes().to_vec(),
+            hour: c.name("hour").unwrap().as_str().as_bytes().to_vec(), minute: c.name("minute").unwrap().as_str().as_bytes().to_vec(), second: c.name("second").unwrap().as_str().as_bytes().to_vec(),
+            frac: c.name("frac").map(|m| m.as_str().as_bytes().to_vec()), offset: c.name("offset").unwrap().as_str().as_bytes().to_vec() });
+        let spec = iso_groups_m(s.as_bytes());
+        if real != spec { Some(json!({"fn": "ISO_8601_REGEX.captures vs iso_groups", "input": s, "regex": format!("{:?}", real), "spec": format!("{:?}", spec)})) } else { None }
+    };
+    // 1. every two-digit value of each field, every separator combination, the others fixed
+    let seps = [("", ""), ("-", ""), ("", ":"), ("-", ":")];
+    for (ds, ts) in seps.iter() {
+        for field in 0..6 {
+            for v in 0..100u32 {
+                let mut f = [2015u32, 8, 30, 12, 36, 0];
+                if field == 0 { f[0] = v * 100 + 15; } else { f[field] = v; }
+                for off in ["Z", "+0530", "-05:30", ""] {
+                    for frac in ["", ".5", ",123456789012", "."] {
+                        n += 1;
+                        let s = format!("{:04}{}{:02}{}{:02}T{:02}{}{:02}{}{:02}{}{}", f[0], ds, f[1], ds, f[2], f[3], ts, f[4], ts, f[5], frac, off);
+                        if let Some(d) = check(&s) { return (n, Some(d)); }
+                    }
+                }
+            }
+        }
+    }
+    // 2. mixed separators (one present, the other not), every offset hour/minute, fraction lengths 0..=12
+    for d1 in ["", "-"] { for d2 in ["", "-"] { for t1 in ["", ":"] { for t2 in ["", ":"] {
+        for fl in 0..=12usize {
+            let frac = if fl == 0 { String::new() } else { format!(".{}", "7".repeat(fl)) };
+            n += 1;
+            let s = format!("2015{}08{}30T12{}36{}00{}Z", d1, d2, t1, t2, frac);
+            if let Some(d) = check(&s) { return (n, Some(d)); }
+        }
+    }}}}
+    for sign in ["+", "-"] { for hh in 0..=29u32 { for mm in 0..=99u32 { for colon in ["", ":"] {
+        n += 1;
+        let s = format!("20150830T123600{}{:02}{}{:02}", sign, hh, colon, mm);
+        if let Some(d) = check(&s) { return (n, Some(d)); }
+    }}}}
+    // 3. single-character insertions, deletions and substitutions of three base strings over the date-time alphabet (+ space, newline, x)
+    let alphabet: Vec<char> = "0123456789-:.,TZ+tz x\n".chars().collect();
+    for base in ["20150830T123600Z", "2015-08-30T12:36:00.25+05:30", "20150830T123600,5-0800"] {
+        let b: Vec<char> = base.chars().collect();
+        for i in 0..=b.len() {
+            for c in alphabet.iter() {
+                let mut ins = b.clone(); ins.insert(i, *c);
+                n += 1;
+                if let Some(d) = check(&ins.iter().collect::<String>()) { return (n, Some(d)); }
+                if i < b.len() {
+                    let mut sub = b.clone(); sub[i] = *c;
+                    n += 1;
+                    if let Some(d) = check(&sub.iter().collect::<String>()) { return (n, Some(d)); }
+                }
+            }
+            if i < b.len() {
+                let mut del = b.clone(); del.remove(i);
+                n += 1;
+                if let Some(d) = check(&del.iter().collect::<String>()) { return (n, Some(d)); }
+            }
+        }
+    }
+    // 4. pseudo-random strings over the alphabet and random two-point mutations
+    let mut x: u64 = 0x9E3779B97F4A7C15;
+    let mut rnd = move || { x ^= x << 13; x ^= x >> 7; x ^= x << 17; x };
+    while n < budget {
+        let base: Vec<char> = "2015-08-30T12:36:00.25+05:30".chars().collect();
+        let mut s = base.clone();
+        for _ in 0..(1 + rnd() % 3) {
+            let i = (rnd() as usize) % s.len();
+            match rnd() % 3 { 0 => { s[i] = alphabet[(rnd() as usize) % alphabet.len()]; } 1 => { s.remove(i); } _ => { s.insert(i, alphabet[(rnd() as usize) % alphabet.len()]); } }
+            if s.is_empty() { s.push('Z'); }
+        }
+        n += 1;
+        if let Some(d) = check(&s.iter().collect::<String>()) { return (n, Some(d)); }
+    }
+    (n, None)
+}
+
 /// C04 / C16: textual renderings of one instant, window boundaries, malformed dates (header carrier)
 fn search_time(what: &str) -> (usize, Option<Value>) {
     let mut n = 0;
@@ -645,6 +839,72 @@ fn search_time(what: &str) -> (usize, Option<Value>) {
     }
     (n, None)
 }
+/// C13: requests with two or more simultaneous defects; the kind (and status) reported must be that of the earliest failing rule. BOUNDED (fixed list).
+fn search_precedence() -> (usize, Option<Value>) {
+    use scratchstack_aws_signature::SignatureError;
+    let mut n = 0;
+    let (ts, now) = ts_now();
+    let base = || Req { method: "GET", path: "/".into(), query: "".into(), headers: vec![("Host".into(), "example.amazonaws.com".into())], body: vec![] };
+    let signed = |f: &dyn Fn(&mut Req)| -> Req { let mut r = base(); f(&mut r); sign_header(&mut r, &ts, "us-east-1", "service", false, b"").unwrap(); r };
+    let mut cases: Vec<(&str, Req, DateTime<Utc>, &str, SignatureOptions)> = Vec::new();
+    // rule 1 before rule 4: bad path and bad query
+    { let mut r = signed(&|_| {}); r.path = "/a/%zz".into(); r.query = "x=%zz".into(); cases.push(("bad path + bad query", r, now, "InvalidURIPath", SignatureOptions::default())); }
+    // rule 4 before rule 5: bad query and no carrier at all
+    { let mut r = base(); r.query = "x=%zz".into(); cases.push(("bad query + no carrier", r, now, "MalformedQueryString", SignatureOptions::default())); }
+    // rule 5 before everything later: both carriers, expired
+    { let mut r = signed(&|_| {}); r.query = "X-Amz-Algorithm=AWS4-HMAC-SHA256".into(); cases.push(("both carriers + expired", r, now + chrono::Duration::hours(5), "SignatureDoesNotMatch", SignatureOptions::default())); }
+    { let r = base(); cases.push(("no carrier", r, now, "MissingAuthenticationToken", SignatureOptions::default())); }
+    // rule 6 before rule 8 / 9: header without Signature= and with a bad date
+    { let mut r = signed(&|_| {}); for h in r.headers.iter_mut() { if h.0 == "Authorization" { h.1 = h.1.split(", Signature=").next().unwrap().to_string(); } if h.0 == "X-Amz-Date" { h.1 = "yesterday".into(); } }
+      cases.push(("missing Signature parameter + bad date", r, now, "IncompleteSignature", SignatureOptions::default())); }
+    // rule 7a before 7d: wrong algorithm and missing parameters on the query carrier
+    { let mut r = base(); r.query = "X-Amz-Algorithm=AWS4-HMAC-SHA1".into(); cases.push(("query carrier: wrong algorithm + nothing else", r, now, "MissingAuthenticationToken", SignatureOptions::default())); }
+    { let mut r = base(); r.query = "X-Amz-Algorithm=AWS4-HMAC-SHA256&X-Amz-Date=garbage".into(); cases.push(("query carrier: missing parameters + bad date", r, now, "IncompleteSignature", SignatureOptions::default())); }
+    // rule 8 before rule 9: host not signed and bad date
+    { let mut r = signed(&|_| {}); for h in r.headers.iter_mut() { if h.0 == "Authorization" { h.1 = h.1.replace("SignedHeaders=host;x-amz-date", "SignedHeaders=x-amz-date"); } if h.0 == "X-Amz-Date" { h.1 = "20150830".into(); } }
+      cases.push(("host unsigned + bad date", r, now, "SignatureDoesNotMatch", SignatureOptions::default())); }
+    // rule 9 before rule 10: bad date format and (whatever instant) far from now
+    { let mut r = signed(&|_| {}); for h in r.headers.iter_mut() { if h.0 == "X-Amz-Date" { h.1 = "2015-08-30 12:36:00".into(); } } cases.push(("bad date format + stale", r, now + chrono::Duration::days(3), "IncompleteSignature", SignatureOptions::default())); }
+    // rule 10/11 before rule 12: expired and credential with four parts
+    { let mut r = signed(&|_| {}); for h in r.headers.iter_mut() { if h.0 == "Authorization" { h.1 = h.1.replace("/aws4_request", ""); } } cases.push(("expired + credential arity", r, now + chrono::Duration::hours(1), "SignatureDoesNotMatch", SignatureOptions::default())); }
+    // rule 12 before rule 13: arity and wrong region (fresh)
+    { let mut r = signed(&|_| {}); for h in r.headers.iter_mut() { if h.0 == "Authorization" { h.1 = h.1.replace("us-east-1/service/aws4_request", "eu-west-9/service"); } } cases.push(("credential arity + wrong region", r, now, "IncompleteSignature", SignatureOptions::default())); }
+    { let mut r = signed(&|_| {}); for h in r.headers.iter_mut() { if h.0 == "Authorization" { h.1 = h.1.replace("/aws4_request", "/aws4_request/extra"); } } cases.push(("credential with six parts", r, now, "IncompleteSignature", SignatureOptions::default())); }
+    // rule 13 before the signature: wrong region and wrong signature
+    { let mut r = signed(&|_| {}); for h in r.headers.iter_mut() { if h.0 == "Authorization" { h.1 = h.1.replace("us-east-1", "eu-west-9"); h.1.push('0'); } } cases.push(("wrong region + wrong signature", r, now, "SignatureDoesNotMatch", SignatureOptions::default())); }
+    // form folding: unknown charset is a 400 InvalidBodyEncoding; a body too large for the rebuilt URI is a 400 MalformedQueryString
+    { let mut r = base(); r.method = "POST"; r.headers.push(("Content-Type".into(), "application/x-www-form-urlencoded; charset=klingon".into())); r.body = b"a=b".to_vec();
+      sign_header(&mut r, &ts, "us-east-1", "service", false, b"").unwrap(); cases.push(("unknown charset", r, now, "InvalidBodyEncoding", SignatureOptions::url_encode_form())); }
+    { let mut r = base(); r.method = "POST"; r.headers.push(("Content-Type".into(), "application/x-www-form-urlencoded".into())); r.body = format!("a={}", "b".repeat(70_000)).into_bytes();
+      sign_header(&mut r, &ts, "us-east-1", "service", false, b"").unwrap(); cases.push(("70 000 byte form body", r, now, "MalformedQueryString", SignatureOptions::url_encode_form())); }
+    for (name, r, at, expect, opt) in cases.iter() {
+        n += 1;
+        let res = validate(r, *at, "us-east-1", "service", *opt);
+        let ok = match &res { Err(e) => e.starts_with(&format!("{}:", expect)), Ok(_) => false };
+        if !ok {
+            return (n, Some(json!({"fn": "sigv4_validate_request", "case": format!("precedence: {}", name), "expected_kind": expect, "real": format!("{:?}", res)})));
+        }
+    }
+    // taxonomy: kind fixes code and status (400 malformed, 403 authentication, 500 infrastructure only)
+    use scratchstack_errors::ServiceError;
+    let io = std::io::Error::new(std::io::ErrorKind::Other, "x");
+    let table: Vec<(SignatureError, &str, u16)> = vec![
+        (SignatureError::ExpiredToken("".into()), "ExpiredToken", 403), (SignatureError::IO(io), "InternalFailure", 500),
+        (SignatureError::InternalServiceError("x".into()), "InternalFailure", 500), (SignatureError::InvalidBodyEncoding("".into()), "InvalidBodyEncoding", 400),
+        (SignatureError::InvalidClientTokenId("".into()), "InvalidClientTokenId", 403), (SignatureError::InvalidContentType("".into()), "InvalidContentType", 403),
+        (SignatureError::InvalidRequestMethod("".into()), "InvalidRequestMethod", 400), (SignatureError::InvalidURIPath("".into()), "InvalidURIPath", 400),
+        (SignatureError::IncompleteSignature("".into()), "IncompleteSignature", 400), (SignatureError::MalformedQueryString("".into()), "MalformedQueryString", 400),
+        (SignatureError::MissingAuthenticationToken("".into()), "MissingAuthenticationToken", 400), (SignatureError::SignatureDoesNotMatch(None), "SignatureDoesNotMatch", 403),
+    ];
+    for (e, code, status) in table.iter() {
+        n += 1;
+        if e.error_code() != *code || e.http_status().as_u16() != *status {
+            return (n, Some(json!({"fn": "SignatureError::error_code/http_status", "kind": kind(e), "expected": [code, status], "real": [e.error_code(), e.http_status().as_u16()]})));
+        }
+    }
+    (n, None)
+}
+
 /// C05: requirement sets built through VecSignedHeaderRequirements; the request signs only host and x-amz-date
 fn search_requirements() -> (usize, Option<Value>) {
     let mut n = 0;
@@ -751,6 +1011,41 @@ fn search_content_type() -> (usize, Option<Value>) {
     if res == Err("PANIC".to_string()) {
         return (n, Some(json!({"fn": "sigv4_validate_request", "case": "oversized folded form", "real": "PANIC"})));
     }
+    // byte-order marks are body bytes like any other: a UTF-8 BOM belongs to the first parameter name, UTF-16 text is not UTF-8
+    for (body, expect_query, err) in [
+        (b"\xEF\xBB\xBFa=b".to_vec(), "%EF%BB%BFa=b", ""),
+        (b"\xFF\xFEa\x00=\x00b\x00".to_vec(), "", "InvalidBodyEncoding"),
+        (b"\xFE\xFF\x00a\x00=\x00b".to_vec(), "", "InvalidBodyEncoding"),
+    ] {
+        for ct in ["application/x-www-form-urlencoded", "application/x-www-form-urlencoded; charset=utf-8"] {
+            n += 1;
+            let mut r = Req { method: "POST", path: "/".into(), query: "".into(), headers: vec![("Host".into(), "example.amazonaws.com".into()), ("Content-Type".into(), ct.into())], body: body.clone() };
+            {
+                let mut merged = Req { method: "POST", path: "/".into(), query: expect_query.into(), headers: r.headers.clone(), body: vec![] };
+                sign_header(&mut merged, &ts, "us-east-1", "service", false, b"");
+                r.headers = merged.headers;
+            }
+            let res = validate(&r, now, "us-east-1", "service", SignatureOptions::url_encode_form());
+            let ok = if err.is_empty() { matches!(&res, Ok((uri, 0)) if uri.contains(expect_query)) } else { matches!(&res, Err(e) if e.starts_with(err)) };
+            if !ok {
+                return (n, Some(json!({"fn": "sigv4_validate_request", "case": "form body starting with a byte-order mark", "body_hex": hex::encode(&body), "content_type": ct,
+                    "expected": if err.is_empty() { format!("folded as {}", expect_query) } else { err.to_string() }, "real": format!("{:?}", res)})));
+            }
+        }
+    }
+    // long client-supplied charset labels with a two-byte character at every offset: refused, never a panic
+    for off in 0..130usize {
+        n += 1;
+        let label: String = std::iter::repeat('x').take(off).chain(std::iter::once('\u{e9}')).chain(std::iter::repeat('y').take(130 - off)).collect();
+        let mut r = Req { method: "POST", path: "/".into(), query: "".into(), headers: vec![("Host".into(), "example.amazonaws.com".into())], body: b"a=b".to_vec() };
+        sign_header(&mut r, &ts, "us-east-1", "service", false, b"a=b");
+        // http header values are bytes: the Latin-1 byte 0xE9 (the crate reads header values as Latin-1)
+        let raw: Vec<u8> = format!("application/x-www-form-urlencoded; charset=").into_bytes().into_iter().chain(label.chars().map(|c| c as u32 as u8)).collect();
+        let res = validate_raw_header(&r, "content-type", &raw, now, SignatureOptions::url_encode_form());
+        if !matches!(&res, Err(e) if e.starts_with("InvalidBodyEncoding:")) {
+            return (n, Some(json!({"fn": "sigv4_validate_request", "case": "131-byte charset label with a Latin-1 byte", "offset_of_0xE9": off, "expected": "InvalidBodyEncoding", "real": format!("{:?}", res)})));
+        }
+    }
     (n, None)
 }
 /// C11 / C19: the presigned carrier with X-Amz-SignedHeaders listed unsorted; repeated X-Amz-Security-Token; Date and X-Amz-Date both present
@@ -798,6 +1093,61 @@ fn search_carriers() -> (usize, Option<Value>) {
     (n, None)
 }
 /// C15: the three body conversions shipped with the crate
+/// like validate(), with one extra header whose value is given as raw bytes (http header values need not be UTF-8)
+fn validate_raw_header(r: &Req, name: &'static str, value: &[u8], now: DateTime<Utc>, options: SignatureOptions) -> Result<(String, usize), String> {
+    let mut uri = r.path.clone();
+    if !r.query.is_empty() { uri.push('?'); uri.push_str(&r.query); }
+    let mut b = Request::builder().method(r.method).uri(uri);
+    for (k, v) in &r.headers { b = b.header(k.as_str(), v.as_str()); }
+    b = b.header(name, http::HeaderValue::from_bytes(value).map_err(|e| format!("http: {}", e))?);
+    let req = b.body(Bytes::from(r.body.clone())).map_err(|e| format!("http: {}", e))?;
+    let rt = tokio::runtime::Builder::new_current_thread().build().unwrap();
+    let mut svc = service_for_signing_key_fn(provider);
+    let res = std::panic::catch_unwind(std::panic::AssertUnwindSafe(|| {
+        rt.block_on(sigv4_validate_request(req, "us-east-1", "service", &mut svc, now, &VecSignedHeaderRequirements::default(), options))
+    }));
+    match res {
+        Err(_) => Err("PANIC".into()),
+        Ok(Ok((parts, body, _))) => Ok((parts.uri.to_string(), body.len())),
+        Ok(Err(e)) => Err(match e.downcast_ref::<scratchstack_aws_signature::SignatureError>() { Some(se) => format!("{}: {}", kind(se), se), None => format!("non-SignatureError: {}", e) }),
+    }
+}
+/// C15: the principal and the session data the provider supplies come back unchanged
+fn search_identity() -> (usize, Option<Value>) {
+    use scratchstack_aws_principal::{Principal, SessionData, SessionValue, User};
+    let (ts, now) = ts_now();
+    let mut n = 0;
+    for nvals in [0usize, 1, 3] {
+        n += 1;
+        let mut r = Req { method: "GET", path: "/".into(), query: "".into(), headers: vec![("Host".into(), "example.amazonaws.com".into())], body: vec![] };
+        sign_header(&mut r, &ts, "us-east-1", "service", false, b"").unwrap();
+        let principal = Principal::from(vec![User::new("aws", "123456789012", "/", "user").unwrap().into()]);
+        let mut sd = SessionData::new();
+        for i in 0..nvals { sd.insert(&format!("aws:key{}", i), SessionValue::String(format!("value{}", i))); }
+        let (p2, sd2) = (principal.clone(), sd.clone());
+        let prov = move |req: GetSigningKeyRequest| { let (p, s) = (p2.clone(), sd2.clone()); async move {
+            let k = KSecretKey::<44>::from_str(SECRET).unwrap();
+            let sk = k.to_ksigning(req.request_date(), req.region(), req.service());
+            Ok::<_, BoxError>(GetSigningKeyResponse::builder().principal(p).session_data(s).signing_key(sk).build().unwrap())
+        }};
+        let mut b = Request::builder().method(r.method).uri(r.path.clone());
+        for (k, v) in &r.headers { b = b.header(k.as_str(), v.as_str()); }
+        let req = b.body(Bytes::new()).unwrap();
+        let rt = tokio::runtime::Builder::new_current_thread().build().unwrap();
+        let mut svc = service_for_signing_key_fn(prov);
+        let res = rt.block_on(sigv4_validate_request(req, "us-east-1", "service", &mut svc, now, &VecSignedHeaderRequirements::default(), SignatureOptions::default()));
+        match res {
+            Ok((_, _, resp)) => {
+                if resp.principal() != &principal || resp.session_data() != &sd {
+                    return (n, Some(json!({"fn": "sigv4_validate_request / From<GetSigningKeyResponse>", "case": "identity pass-through", "session_values": nvals,
+                        "real": format!("principal {:?}, session data {:?}", resp.principal(), resp.session_data()), "expected": format!("principal {:?}, session data {:?}", principal, sd)})));
+                }
+            }
+            Err(e) => return (n, Some(json!({"fn": "sigv4_validate_request", "case": "identity pass-through: reference-signed request refused", "real": format!("{}", e)}))),
+        }
+    }
+    (n, None)
+}
 fn search_into_bytes() -> (usize, Option<Value>) {
     use scratchstack_aws_signature::IntoRequestBytes;
     let rt = tokio::runtime::Builder::new_current_thread().build().unwrap();
@@ -1036,6 +1386,7 @@ fn searches_for(pid: &str, strict_d6: bool) -> Vec<(&'static str, (usize, Option
     }
     if all || pid == "C15" {
         v.push(("into_request_bytes", search_into_bytes()));
+        v.push(("identity_passthrough", search_identity()));
     }
     if all || pid == "C04" {
         v.push(("time_window", search_time("C04")));
@@ -1049,6 +1400,9 @@ fn searches_for(pid: &str, strict_d6: bool) -> Vec<(&'static str, (usize, Option
     }
     if all || pid == "C14" {
         v.push(("provider_discipline", search_provider()));
+    }
+    if all || pid == "C13" {
+        v.push(("precedence", search_precedence()));
     }
     if all || pid == "C18" {
         v.push(("determinism", search_determinism()));
@@ -1086,12 +1440,15 @@ fn main() {
             let pid = args.get(2).map(|s| s.as_str()).unwrap_or("");
             let mut rs: Vec<(&'static str, (usize, Option<Value>))> = Vec::new();
             if pid == "C12" { rs.push(("content_type_and_fold_edges", search_content_type())); }
-            if pid == "C15" { rs.push(("into_request_bytes", search_into_bytes())); }
+            if pid == "C15" { rs.push(("into_request_bytes", search_into_bytes())); rs.push(("identity_passthrough", search_identity())); }
             if pid == "C05" { rs.push(("requirement_mutators", search_requirement_mutators())); }
+            if pid == "C16" { rs.push(("calendar_exhaustive", calendar_exhaustive())); rs.push(("regex_transcription", regex_transcription_crosscheck(200_000))); }
             let cases: usize = rs.iter().map(|r| r.1 .0).sum();
             let found: Vec<Value> = rs.iter().filter_map(|r| r.1 .1.clone().map(|d| json!({"search": r.0, "disagreement": d}))).collect();
             json!({"ok": true, "found": !found.is_empty(), "cases": cases, "searches": rs.iter().map(|r| json!({"name": r.0, "cases": r.1.0})).collect::<Vec<_>>(), "disagreements": found,
-                   "bound": "fixed lists of Content-Type spellings / body lengths; stands in for get_content_type_and_charset, trim_ascii and the IntoRequestBytes impls, which are not under contract"})
+                   "bound": match pid {
+                       "C16" => "calendar_exhaustive: COMPLETE by native execution over every (y, m, d) the pattern admits (0000-9999 x 01-12 x 01-31) against chrono; regex_transcription: BOUNDED, 200 000 structured and mutated strings against the regex crate on the repository's exact pattern text",
+                       _ => "fixed lists of Content-Type spellings / body lengths / requirement-set constructions: the COMPILED get_content_type_and_charset, trim_ascii, IntoRequestBytes impls and VecSignedHeaderRequirements mutators against the same specs their extracted text is verified against" }})
         }
         Some("rerun") => {
             // re-run = run the searches again and report whether the recorded disagreement is still present
